@@ -80,12 +80,12 @@ def main(argv):
         pid = argv[argv.index('--pid') + 1]
         names = [n for n in names if n != pid]
         names += [k for k, m in MUTANTS.items() if pid == m['pid'] or (isinstance(m['pid'], list) and pid in m['pid'])]
-    if not names:
-        names = list(MUTANTS)
     jobs = 4
     if '-j' in argv:
         jobs = int(argv[argv.index('-j') + 1])
         names = [n for n in names if n != str(jobs)]
+    if not names:
+        names = list(MUTANTS)
     path = os.path.join(VERIF, 'sensitivity.json')
     db = json.load(open(path)) if os.path.exists(path) else {}
     with cf.ThreadPoolExecutor(jobs) as ex:
